@@ -143,6 +143,20 @@ def run(ctx):
     ctx.assumptions += ["capacity growth is Go's business: any capacity >= the needed length is accepted (taken from the log)",
                         "re-slicing between len and cap, float/bool/numeral-string indices, integer-to-string field stores and nil into typed fields are left open (the rest of such a history is not judged)",
                         "string indexing uses ASCII payloads only"]
+    # ErrUnchanged (a design property of MC_AnkoContainers) for statements the bounded machine does not enumerate: targets reached through slice
+    # expressions, call results, parentheses and index paths x operator x value, judged on the real interpreter
+    lawp = os.path.join(ctx.work, "law.json")
+    vlib.run_cmd(ctx, [binp, "law", lawp], timeout=900)
+    lw = json.load(open(lawp))
+    ctx.cov["evaluations"] += lw["cases"]
+    ctx.cov["traces_validated_against_impl"] += lw["failing_statements"]
+    ctx.cov["err_unchanged_law"] = {"statements": lw["cases"], "failing_statements_judged": lw["failing_statements"], "mismatches": lw["n_mismatch"]}
+    seen = set()
+    for m in (lw.get("mismatches") or []):
+        if m["target"] in seen or len(seen) >= 8:
+            continue
+        seen.add(m["target"])
+        vlib.violation(ctx, "a statement that fails changed a container: `%s` -> %s; before %s, after %s" % (m["stmt"], m["error"], m["before"][:200], m["after"][:200]), {"kind": "law", "stmt": m["stmt"], "mismatch": m})
     ntr, length = (400, 30) if ctx.quick() else (6000, 40)
     shards = 8
     def gen(k):
@@ -234,6 +248,13 @@ def run(ctx):
 def replay(ctx, path):
     binp = vlib.build_harness(ctx, "contharness")
     p = json.load(open(path))
+    if p.get("kind") == "law":
+        lawp = os.path.join(ctx.work, "law.json")
+        vlib.run_cmd(ctx, [binp, "law", lawp], timeout=900)
+        bad = any(m["stmt"] == p["stmt"] for m in (json.load(open(lawp)).get("mismatches") or []))
+        if bad:
+            print("VIOLATION property=%s replay=%s" % (ctx.id, path))
+        return 1 if bad else 0
     ops = os.path.join(ctx.work, "ops.ndjson")
     open(ops, "w").write(json.dumps(p["ops"]) + "\n")
     out = os.path.join(ctx.work, "cont_trace.ndjson")
